@@ -15,6 +15,26 @@ Flow (DESIGN.md section 5, C02):
     requires was discharged, with exactly (d+1)^2 harmonic obligations, none failed, integer
     observables as advertised (MISMATCH lines -> violations keyed by file name).
 
+Audit extension (construction routes, integrate method, size table):
+ 3b. "every angular quadrature that CAN BE CONSTRUCTED": AngularCatalogue.tla (RouteCases) generates, for every one
+    of the 450 entries, ~43 short HISTORIES of constructor calls that name the entry by the documented rules
+    (degree as keyword / positional / numpy integer of the smallest fitting type / int64; size; size with another
+    or no degree; lowest and highest in-between requests that round up to the entry, incl. 0; cache=True / False;
+    warm caches filled through the same or another call form, by the neighbouring entries, by the other three
+    methods at the same degree / size; an earlier instance whose arrays the caller overwrote in place; method name
+    upper / title / mixed case or omitted; degree omitted; non-integers (0-d array, float) that may be rejected).
+    Both tiers run all of them (19.5e3 constructions), each from cold caches, in forked workers.  The judge is
+    TLC (RoutesClean): the grid a route hands out must advertise a (degree, size) pair of the method's table, have
+    that many points and weights, and be bit-for-bit the canonical grid of the advertised degree (the one whose
+    harmonic obligations are discharged) - or else the harness discharges unit norm and harmonics on it directly
+    (JUDGE_CAP evaluations; same TOL).  ValueError = nothing constructed (noted when the form is admissible);
+    any other exception = failed construction.  Landing on another entry than expected is C12's law (noted only).
+  - Grid.integrate obligations (IntegrateDegrees): g.integrate(Y_lm(points)) = Expected(l, m) within the same TOL for
+    all m of l <= min(d, 2) and of l = d where size (2 d + 1) <= 4e5.  It is the same sum in another summation
+    order: the two differ by <= n eps max|w Y| ~ 3e-10 worst case (measured <= 4e-15 ... see below), far inside the margin of TOL.
+  - catalogue laws: the size table names the same (degree, size) pairs as the degree table; tables sorted by degree;
+    RouteGeneratorLaws (every generated request lies in the interval the resolution rule maps to the entry).
+
 thorough = all 450 grids, all (l, m): complete enumeration (7.36e6 harmonic obligations).
 quick    = all Lebedev and Ahrens-Beylkin grids, every 8th spherical-design / max-det grid and a
            VERIF_SEED-chosen 10 % of the rest.
@@ -29,6 +49,7 @@ Tolerances and calibration (pinned tree, all 450 grids, thorough tier):
 """
 from __future__ import annotations
 
+import hashlib
 import json
 import math
 import multiprocessing as mp_
@@ -45,16 +66,34 @@ PROP = "C02"
 TOL = 1e-8
 UNIT_TOL = 1e-12
 SPLIT = 6000       # grids with more points are split into slices of this many points
+WORKERS = 8
 
 
-def _records_module(wd, tier, extra, rec_file):
+def _signature_defaults():
+    """Defaults of AngularGrid(degree=50, *, size=None, cache=True, method="lebedev"), read from the signature."""
+    import inspect
+    from grid.angular import AngularGrid
+    ps = inspect.signature(AngularGrid.__init__).parameters
+    d, m = ps["degree"].default, ps["method"].default
+    if not (isinstance(d, int) and not isinstance(d, bool) and d >= 0 and isinstance(m, str)):
+        raise tlc.MachineryError(f"AngularGrid signature defaults are not (non-negative int, str): degree={d!r}, method={m!r}")
+    return int(d), m.lower()
+
+
+def _records_module(wd, tier, extra, rec_file, seed=0, route_file=None):
+    ddeg, dmeth = _signature_defaults()
     lines = ["---- MODULE Records_angular ----", "EXTENDS Integers, Sequences, Json",
              f'Tier == "{tier}"',
+             f"Seed == {int(seed) % 1000}", f"DefaultDegree == {ddeg}", f'DefaultMethod == "{dmeth}"',
              "Extra == " + tlc.tla(set(tuple(x) for x in extra)) if extra else "Extra == {}"]
     if rec_file:
         lines.append(f'Rec == JsonDeserialize("{rec_file}")')
     else:
         lines.append("Rec == [lebedev |-> <<>>, spherical |-> <<>>, maxdet |-> <<>>, ahrens_beylkin |-> <<>>]")
+    if route_file:
+        lines.append(f'RouteRec == JsonDeserialize("{route_file}")')
+    else:
+        lines.append("RouteRec == [lebedev |-> <<>>, spherical |-> <<>>, maxdet |-> <<>>, ahrens_beylkin |-> <<>>]")
     lines.append("====")
     (wd / "Records_angular.tla").write_text("\n".join(lines) + "\n")
 
@@ -66,9 +105,63 @@ def _grid(method, degree):
         return AngularGrid(degree=int(degree), method=method)
 
 
+def _digest(pts, wts):
+    h = hashlib.sha1()
+    for a in (pts, wts):
+        a = np.ascontiguousarray(a)
+        h.update(f"{a.dtype.str}{a.shape}".encode())
+        h.update(a.tobytes())
+    return h.hexdigest()
+
+
+def _degree_rows(l, pts, chunk=4096):
+    """The 2l+1 real harmonics of degree l at the points, rows ordered like ylm.row(l, m)
+    (m = 0, 1, -1, 2, -2, ...); same recurrence as ylm.sphere_moments, only the last degree is kept."""
+    pts = np.asarray(pts, dtype=float)
+    out = np.empty((2 * l + 1, pts.shape[0]))
+    r2 = math.sqrt(2.0)
+    for i0 in range(0, pts.shape[0], chunk):
+        p = pts[i0: i0 + chunk]
+        x, y, z = p[:, 0], p[:, 1], p[:, 2]
+        rho = np.hypot(x, y)
+        safe = np.where(rho > 0, rho, 1.0)
+        cm, sm = ylm._azimuth(l, np.where(rho > 0, x / safe, 1.0), np.where(rho > 0, y / safe, 0.0))
+        for ll, P in ylm.pbar_iter(l, z, rho):
+            if ll == l:
+                out[0, i0: i0 + chunk] = P[0] * cm[0]
+                if l:
+                    out[1::2, i0: i0 + chunk] = r2 * P[1: l + 1] * cm[1: l + 1]
+                    out[2::2, i0: i0 + chunk] = r2 * P[1: l + 1] * sm[1: l + 1]
+    return out
+
+
+def _integrate_obligations(g, pts, degrees, exp0, exp1):
+    """Obligations on the grid's own integrate method (AngularCatalogue.tla, IntegrateDegrees):
+    g.integrate(Y_lm(points)) = Expected(l, m) within TOL for every m of the listed degrees."""
+    nint = nfail = 0
+    worst = (0.0, None)
+    for l in degrees:
+        rows = _degree_rows(int(l), pts)
+        for k in range(rows.shape[0]):
+            nint += 1
+            try:
+                v = float(g.integrate(np.ascontiguousarray(rows[k])))
+            except Exception as e:
+                nfail += 1
+                worst = (float("inf"), f"integrate raised {type(e).__name__}: {e}")
+                continue
+            dev = abs(v - (exp0 if l == 0 else exp1))
+            if not (dev <= TOL):
+                nfail += 1
+            if not (dev <= worst[0]):
+                worst = (dev if dev == dev else float("inf"), f"(l,m)={_lm(l * l + k)}: g.integrate(Y_lm) = {v!r}")
+    return nint, nfail, worst
+
+
 def _job(job):
     """One slice of one grid: partial moments and the integer observables."""
-    method, degree, i0, i1 = job
+    method, degree, i0, i1 = job[:4]
+    intdeg, exp0, exp1 = job[4:7] if len(job) >= 7 else ((), math.sqrt(4 * math.pi), 0.0)
     try:
         g = _grid(method, degree)
         pts = np.asarray(g.points, dtype=float)
@@ -79,6 +172,7 @@ def _job(job):
         if not out["shape_ok"] or wts.shape[0] != pts.shape[0]:
             out["error"] = f"points shape {pts.shape}, weights shape {wts.shape}"
             return out
+        out["digest"] = _digest(g.points, g.weights)
         sl = slice(i0, i1)
         nrm = np.linalg.norm(pts[sl], axis=1)
         dev = np.abs(nrm - 1.0)
@@ -88,9 +182,173 @@ def _job(job):
         lmax = int(degree)   # the ADVERTISED degree of the catalogue entry
         with np.errstate(all="ignore"):
             out["moments"] = ylm.sphere_moments(lmax, pts[sl], wts[sl])
+            if i0 == 0:      # the whole-grid obligations are discharged with the first slice
+                out["nint"], out["nint_fail"], w = _integrate_obligations(g, pts, intdeg, exp0, exp1)
+                out["int_worst"] = list(w)
         return out
     except Exception as e:  # construction failure of a catalogued grid is a violation
         return {"method": method, "degree": degree, "i0": i0, "error": f"{type(e).__name__}: {e}"}
+
+
+# ---------------------------------------------------------------------------------------------
+# construction routes (AngularCatalogue.tla, RouteCases): histories of constructor calls
+
+_NP = {"int": int, "float": float, "0d": lambda v: np.array(v),
+       "uint8": np.uint8, "int16": np.int16, "uint16": np.uint16, "int32": np.int32, "int64": np.int64}
+JUDGE_CAP = 2e7        # harmonic evaluations spent on judging one grid that differs from the canonical one
+JUDGE_MAX = 6          # distinct differing grids judged per catalogue entry
+
+
+def _clear_caches():
+    import grid.angular as ga
+    for name, val in list(vars(ga).items()):
+        if name.endswith("_CACHE") and isinstance(val, dict):
+            val.clear()
+
+
+def _spell(name, how):
+    if how == "upper":
+        return name.upper()
+    if how == "title":
+        return name.title()
+    if how == "mixed":
+        return "".join(c.upper() if k % 2 else c.lower() for k, c in enumerate(name))
+    return name
+
+
+def _do_call(call):
+    """Execute one constructor call of a route case (a record emitted by TLC)."""
+    from grid.angular import AngularGrid
+    args, kw = [], {}
+    if call["degree"] != -1:
+        v = None if call["degree"] == -2 else _NP[call["dtype"]](call["degree"])
+        if call["positional"]:
+            args.append(v)
+        else:
+            kw["degree"] = v
+    if call["size"] != -1:
+        kw["size"] = None if call["size"] == -2 else _NP[call["stype"]](call["size"])
+    if call["cache"] != "omit":
+        kw["cache"] = call["cache"] == "true"
+    if call["method"]:
+        kw["method"] = _spell(call["method"], call["spell"])
+    with warnings.catch_warnings():
+        warnings.simplefilter("ignore")
+        g = AngularGrid(*args, **kw)
+    if call["edit"]:
+        # the caller scribbles over the arrays of ITS grid
+        try:
+            g.weights[...] = g.weights * 3.0 + 1.0
+            g.points[...] = 0.25
+        except (ValueError, TypeError):   # read-only arrays: nothing to scribble on
+            pass
+    return g
+
+
+def _call_text(call):
+    a = []
+    if call["degree"] != -1:
+        v = "None" if call["degree"] == -2 else (str(call["degree"]) if call["dtype"] == "int" else f"{call['dtype']}({call['degree']})")
+        a.append(v if call["positional"] else f"degree={v}")
+    if call["size"] != -1:
+        a.append("size=" + ("None" if call["size"] == -2 else (str(call["size"]) if call["stype"] == "int" else f"{call['stype']}({call['size']})")))
+    if call["cache"] != "omit":
+        a.append(f"cache={call['cache'] == 'true'}")
+    if call["method"]:
+        a.append(f"method={_spell(call['method'], call['spell'])!r}")
+    return "AngularGrid(" + ", ".join(a) + ")" + (" [arrays edited in place]" if call["edit"] else "")
+
+
+def _judge_direct(pts, wts, deg, exp0, exp1):
+    """Discharge the unit-norm and harmonic obligations on a grid directly (as many degrees as JUDGE_CAP pays for)."""
+    n = pts.shape[0]
+    nrm = np.linalg.norm(pts, axis=1)
+    dev = np.abs(nrm - 1.0)
+    dev = np.where(np.isfinite(dev), dev, np.inf)
+    unit_bad = int((dev > UNIT_TOL).sum())
+    lmax = int(deg)
+    if not (0 <= lmax <= 1000) or n == 0:
+        return {"nobl": 0, "nfail": 0, "unit_bad": unit_bad, "worst": "degree / size not judgeable"}
+    while lmax > 0 and (lmax + 1) ** 2 * n > JUDGE_CAP:
+        lmax -= 1
+    with np.errstate(all="ignore"):
+        mom = ylm.sphere_moments(lmax, pts, wts)
+    expected = np.full(mom.shape, exp1)
+    expected[0] = exp0
+    d = np.abs(mom - expected)
+    d = np.where(np.isfinite(d), d, np.inf)
+    w = int(np.argmax(d))
+    return {"nobl": int(mom.shape[0]), "nfail": int((d > TOL).sum()), "unit_bad": unit_bad,
+            "worst": f"(l,m)={_lm(w)}: SUM w Y_lm = {float(mom[w])!r}, expected {float(expected[w])!r}; "
+                     f"max | |p|-1 | = {float(dev.max()):.2e}; judged l <= {lmax}"}
+
+
+def _observe(g):
+    import operator
+    pts = np.asarray(g.points)
+    wts = np.asarray(g.weights)
+    o = {"deg_attr": int(operator.index(g.degree)), "size_attr": int(operator.index(g.size)),
+         "npoints": int(pts.shape[0]) if pts.ndim else -1, "nweights": int(wts.shape[0]) if wts.ndim else -1}
+    if pts.ndim != 2 or pts.shape[1:] != (3,) or wts.ndim != 1:
+        raise RuntimeError(f"points shape {pts.shape}, weights shape {wts.shape}")
+    return o, pts, wts
+
+
+def _route_job(job):
+    """All route cases of one catalogue entry; every case starts from cold caches."""
+    method, idx, degree, cases, judged_digest, exp0, exp1 = job
+    recs, info = [], []
+    canon = {}          # advertised degree -> digest of the canonical grid (built cold)
+    judged = {}         # digest -> direct judgement
+    blank = {"deg_attr": -1, "size_attr": -1, "npoints": -1, "nweights": -1, "same": False, "nobl": 0, "nfail": 0, "unit_bad": 0}
+
+    def canonical(deg):
+        if deg not in canon:
+            try:
+                _clear_caches()
+                g0 = _grid(method, deg)
+                canon[deg] = _digest(g0.points, g0.weights) if int(g0.degree) == deg else None
+            except Exception:
+                canon[deg] = None
+        return canon[deg]
+
+    for k, case in enumerate(cases):
+        rec = dict(blank, form=case["form"])
+        msg = ""
+        try:
+            _clear_caches()
+            for c in case["pre"]:
+                _do_call(c)
+            g = _do_call(case["call"])
+            obs, pts, wts = _observe(g)
+            rec.update(obs, status="ok")
+            dg = _digest(pts, wts)
+            if k == 0:          # the canonical call itself (RouteGeneratorLaws): reference of this entry
+                canon.setdefault(obs["deg_attr"], dg)
+                rec["same"] = judged_digest is None or dg == judged_digest
+            else:
+                rec["same"] = dg == canonical(obs["deg_attr"])
+            if not rec["same"]:
+                if dg not in judged and len(judged) < JUDGE_MAX:
+                    judged[dg] = _judge_direct(np.asarray(pts, dtype=float), np.asarray(wts, dtype=float), obs["deg_attr"], exp0, exp1)
+                j = judged.get(dg)
+                if j:
+                    rec.update(nobl=j["nobl"], nfail=j["nfail"], unit_bad=j["unit_bad"])
+                    msg = j["worst"]
+                    msg += f"; SUM w = {float(np.sum(wts))!r}"
+        except ValueError as e:
+            rec["status"] = "rejected"
+            msg = f"ValueError: {e}"[:200]
+        except TypeError as e:
+            rec["status"] = "rejected" if case["may_reject"] else "error"
+            msg = f"TypeError: {e}"[:200]
+        except Exception as e:
+            rec["status"] = "error"
+            msg = f"{type(e).__name__}: {e}"[:300]
+        recs.append(rec)
+        info.append(msg)
+    _clear_caches()
+    return method, idx, recs, info
 
 
 def _lm(r):
@@ -102,12 +360,20 @@ def _lm(r):
 def run(tier: str) -> int:
     rep = Report(PROP, tier, "exploration")
     rng = random.Random(rep.seed)
+    import time
+    t_start = time.time()
+    stage = {}
+
+    def lap(name):
+        nonlocal t_start
+        stage[name] = round(time.time() - t_start, 2)
+        t_start = time.time()
     wd = tlc.scratch(f"{PROP}-{tier}")
     tabs = extract.angular_tables()
     extract.write_tables_angular(wd, tabs)
 
     # ---- 1. catalogue laws + emission ----------------------------------------------------------
-    _records_module(wd, "emit", [], None)
+    _records_module(wd, "emit", [], None, seed=rep.seed)
     r0 = tlc.run_tlc("AngularCatalogue", "MC_AngularCatalogue.cfg", wd, workers=4, timeout=600).require_ok("catalogue")
     rep.tlc(r0, "AngularCatalogue(emit)")
     if r0.status == "violation":
@@ -121,9 +387,15 @@ def run(tier: str) -> int:
     exp0 = float(evaluate(cat["expected_l0"], {}, "mp"))
     exp1 = float(evaluate(cat["expected_other"], {}, "mp"))
     entries = [e for m in cat["grids"] for e in cat["grids"][m]]
+    try:
+        with open(wd / "routes.json") as f:
+            routes = json.load(f)
+    except OSError:
+        raise tlc.MachineryError("AngularCatalogue.tla did not emit routes.json\n" + r0.stdout[-2000:])
     rep.set("catalogue_size", len(entries))
     rep.set("orphan_files_not_constructible", cat["orphans"])
 
+    lap("catalogue_tlc")
     # ---- 2. calibrate the evaluator against Harmonics.tla -----------------------------------------
     from . import c08
     em, rh = c08.emission(f"{PROP}-{tier}-harmonics", ltree=12, lexact=3)
@@ -134,6 +406,7 @@ def run(tier: str) -> int:
         raise tlc.MachineryError(f"vf/ylm.py failed its calibration against Harmonics.tla: {e}")
     rep.set("ylm_calibration", cal)
 
+    lap("calibration")
     # ---- 3. selection and discharge --------------------------------------------------------------
     if tier == "thorough":
         selected = entries
@@ -151,17 +424,18 @@ def run(tier: str) -> int:
             k = -(-n // SPLIT)
             step = -(-n // k)
             for i0 in range(0, n, step):
-                jobs.append((cost / k, (e["method"], e["degree"], i0, min(n, i0 + step))))
+                jobs.append((cost / k, (e["method"], e["degree"], i0, min(n, i0 + step), e["integrate_degrees"], exp0, exp1)))
         else:
-            jobs.append((cost, (e["method"], e["degree"], 0, n)))
+            jobs.append((cost, (e["method"], e["degree"], 0, n, e["integrate_degrees"], exp0, exp1)))
     jobs.sort(key=lambda t: -t[0])
     parts = {}
-    with mp_.get_context("fork").Pool(16) as pool:
+    with mp_.get_context("fork").Pool(WORKERS) as pool:
         for out in pool.imap_unordered(_job, [j for _, j in jobs], chunksize=1):
             parts.setdefault((out["method"], out["degree"]), []).append(out)
 
     records = {m: [] for m in tabs}
     detail = {}
+    judged_digest = {}
     for e in selected:
         key = (e["method"], e["degree"])
         ps = sorted(parts.get(key, []), key=lambda o: o["i0"])
@@ -182,15 +456,53 @@ def run(tier: str) -> int:
         rec = {"degree": e["degree"], "size": e["size"], "deg_attr": ps[0]["deg_attr"], "size_attr": ps[0]["size_attr"],
                "npoints": ps[0]["npoints"], "nweights": ps[0]["nweights"],
                "unit_bad": int(sum(p["unit_bad"] for p in ps)), "nobl": int(mom.shape[0]),
-               "nfail": nfail, "nonfinite": nonfinite}
+               "nfail": nfail, "nonfinite": nonfinite,
+               "nint": int(ps[0].get("nint", 0)), "nint_fail": int(ps[0].get("nint_fail", 0))}
         records[e["method"]].append(rec)
+        judged_digest[key] = ps[0].get("digest")
+        if len({p.get("digest") for p in ps}) > 1:
+            rep.violation(fname, f"AngularGrid(degree={e['degree']}, method={e['method']!r}) built {len(ps)} times in a row is not the same grid "
+                                 "every time (the slices of its harmonic obligations were discharged on different arrays)",
+                          {"method": e["method"], "degree": e["degree"]})
         detail[fname] = {"method": e["method"], "degree": e["degree"], "size": e["size"], "max_dev": float(dev.max()),
                          "worst_lm": list(_lm(worst)), "observed": float(mom[worst]), "expected": float(expected[worst]),
-                         "nfail": nfail, "unit_worst": max(p["unit_worst"] for p in ps)}
-        rep.evaluated(int(mom.shape[0]) + 2, (e["method"], e["degree"]))
+                         "nfail": nfail, "unit_worst": max(p["unit_worst"] for p in ps),
+                         "integrate_worst": ps[0].get("int_worst")}
+        rep.evaluated(int(mom.shape[0]) + 2 + rec["nint"], (e["method"], e["degree"]))
     with open(wd / "records.json", "w") as f:
         json.dump(records, f)
 
+
+    lap("harmonic_discharge")
+    # ---- 3b. construction routes: every history of constructor calls TLC emitted for every entry --------------
+    rjobs = []
+    for m in routes:
+        for idx, cases in enumerate(routes[m]):
+            e = cat["grids"][m][idx]
+            rjobs.append((e["size"] * len(cases), (m, idx, e["degree"], cases, judged_digest.get((m, e["degree"])), exp0, exp1)))
+    rjobs.sort(key=lambda t: -t[0])
+    route_records = {m: [None] * len(routes[m]) for m in routes}
+    route_info = {}
+    with mp_.get_context("fork").Pool(WORKERS) as pool:
+        for m, idx, recs, info in pool.imap_unordered(_route_job, [j for _, j in rjobs], chunksize=1):
+            route_records[m][idx] = recs
+            route_info[(m, idx)] = info
+    nroutes = 0
+    status_count = {}
+    for m in routes:
+        for idx, recs in enumerate(route_records[m]):
+            recs = route_records[m][idx] = recs or []
+            nroutes += len(recs)
+            for r in recs:
+                status_count[r["status"]] = status_count.get(r["status"], 0) + 1
+            rep.evaluated(len(recs), ("routes", m, idx))
+    with open(wd / "route_records.json", "w") as f:
+        json.dump(route_records, f)
+    rep.set("route_cases_run", nroutes)
+    rep.set("route_cases_by_status", status_count)
+    rep.set("route_forms", sorted({c["form"] for m in routes for cs in routes[m] for c in cs}))
+
+    lap("routes")
     # "for every method": the constructor folds the case of the method name; a spelling it accepts names the same
     # catalogue entry, so it must hand out the very grid judged above (same points, same weights)
     for m, t in tabs.items():
@@ -218,7 +530,7 @@ def run(tier: str) -> int:
                                   {"method": spelled, "degree": d})
 
     # ---- 4. TLC judges the accounting ---------------------------------------------------------------
-    _records_module(wd, tier, extra, "records.json")
+    _records_module(wd, tier, extra, "records.json", seed=rep.seed, route_file="route_records.json")
     r1 = tlc.run_tlc("AngularCatalogue", "MC_AngularCatalogue_accounting.cfg", wd, workers=4, timeout=600).require_ok("accounting")
     rep.tlc(r1, "AngularCatalogue(accounting)")
     if r1.status == "violation":
@@ -234,18 +546,55 @@ def run(tier: str) -> int:
                       f"{fname}.npz (method {m}, advertised degree {d}, size {s}): {', '.join(why)}"
                       + (f"; worst harmonic (l,m)={tuple(dt['worst_lm'])}: SUM w Y_lm = {dt['observed']!r}, expected {dt['expected']!r} "
                          f"(|dev| {dt['max_dev']:.3e}, {dt['nfail']} of {(d + 1) ** 2} integrals beyond {TOL:g}); "
-                         f"max | |p|-1 | = {dt['unit_worst']:.2e}" if dt else ""),
+                         f"max | |p|-1 | = {dt['unit_worst']:.2e}"
+                         + (f"; integrate method: worst {dt['integrate_worst'][1]}" if "integrate-method" in why and dt.get("integrate_worst") else "") if dt else ""),
                       {"method": m, "degree": d, "size": s, "file": fname, "why": why, **dt})
+    # route cases judged by TLC (RoutesClean): violations keyed by file and call form; notes go to the evidence
+    index_of = {(e["method"], e["degree"]): e["index"] - 1 for e in entries}
+    seen_r = set()
+    for t in tlc.tagged(r1.stdout, "ROUTE"):
+        _, m, d, s_, fname, form, why = t
+        if (fname, form) in seen_r:
+            continue
+        seen_r.add((fname, form))
+        idx = index_of[(m, d)]
+        k = next(i for i, c in enumerate(routes[m][idx]) if c["form"] == form)
+        case, rec = routes[m][idx][k], route_records[m][idx][k] if k < len(route_records[m][idx]) else {}
+        hist = " ; ".join(_call_text(c) for c in case["pre"] + [case["call"]])
+        rep.violation(f"{fname}:route:{form}",
+                      f"route '{form}' to {fname}.npz (method {m}, degree {d}, size {s_}): {', '.join(why)}. History: {hist}. Last call handed out a grid "
+                      f"advertising degree {rec.get('deg_attr')}, size {rec.get('size_attr')} with {rec.get('npoints')} points; "
+                      f"{route_info.get((m, idx), [''] * (k + 1))[k]}",
+                      {"method": m, "degree": d, "size": s_, "file": fname, "route": case, "record": rec, "why": why})
+    notes = {}
+    for t in tlc.tagged(r1.stdout, "RNOTE"):
+        _, m, d, s_, fname, form, what = t
+        for w in what:
+            n = notes.setdefault(w, {"count": 0, "examples": []})
+            n["count"] += 1
+            if len(n["examples"]) < 4 and f"{fname}:{form}" not in n["examples"]:
+                n["examples"].append(f"{fname}:{form}")
+    rep.set("route_notes", notes)
     # harness-side cross-check of the accounting: nothing the judge flagged may be missing
     for fname, dt in detail.items():
         if r1.status == "ok" and (dt["nfail"] or dt["unit_worst"] > UNIT_TOL) and not any(k[0] == fname for k in seen):
             raise tlc.MachineryError(f"accounting run did not report the failing grid {fname}")
+    for m in routes:
+        for idx, recs in enumerate(route_records[m]):
+            for r in recs:
+                if r1.status == "ok" and (r["status"] == "error" or (r["status"] == "ok" and not r["same"] and r["nfail"])) \
+                        and (cat["grids"][m][idx]["file"], r["form"]) not in seen_r:
+                    raise tlc.MachineryError(f"accounting run did not report the failing route {m} #{idx} {r['form']}")
 
+    lap("accounting_tlc")
+    rep.set("stage_wall_s", stage)
     by_m = {}
     for fname, dt in detail.items():
         if dt["nfail"] == 0:
             by_m[dt["method"]] = max(by_m.get(dt["method"], 0.0), dt["max_dev"])
     rep.set("max_dev_of_passing_grids_by_method", by_m)
+    rep.set("max_integrate_method_dev_of_passing_grids",
+            max((dt["integrate_worst"][0] for dt in detail.values() if dt["nfail"] == 0 and dt.get("integrate_worst")), default=0.0))
     rep.set("max_unit_norm_dev", max((dt["unit_worst"] for dt in detail.values()), default=0.0))
     rep.set("grids_discharged", len(detail))
     rep.set("harmonic_obligations_discharged", int(sum((dt["degree"] + 1) ** 2 for dt in detail.values())))
@@ -269,7 +618,17 @@ def replay(path: str) -> int:
     c = v.get("case") or {}
     if "method" not in c:
         return run("quick")
-    out = _job((c["method"], c["degree"], 0, 10 ** 9))
+    if "route" in c:
+        canon = {"form": "degree", "pre": [], "may_reject": False,
+                 "call": {"method": c["method"], "spell": "lower", "degree": c["degree"], "dtype": "int", "positional": False,
+                          "size": -1, "stype": "int", "cache": "omit", "edit": False}}
+        m, idx, recs, info = _route_job((c["method"], 0, c["degree"], [canon, c["route"]], None, math.sqrt(4 * math.pi), 0.0))
+        r = recs[1]
+        print(f"replay: route {c['route']['form']} of {c['file']}: {r}; {info[1]}")
+        bad = r["status"] == "error" or (r["status"] == "ok" and (r["npoints"] != r["size_attr"] or r["nweights"] != r["size_attr"]
+                                                                  or (not r["same"] and (r["nfail"] or r["unit_bad"]))))
+        return 1 if bad else 0
+    out = _job((c["method"], c["degree"], 0, 10 ** 9, [0, min(c["degree"], 2)], math.sqrt(4 * math.pi), 0.0))
     if "error" in out:
         print("replay:", out["error"])
         return 1
@@ -299,8 +658,7 @@ def selftest(tier: str) -> int:
     def attempt(name, apply, undo):
         if only and only not in name:
             return
-        for c in (ga.LEBEDEV_CACHE, ga.SPHERICAL_CACHE, ga.MAX_DET_CACHE, ga.AHRENS_BEYLKIN_CACHE):
-            c.clear()
+        _clear_caches()
         apply()
         buf = io.StringIO()
         try:
@@ -382,6 +740,84 @@ def selftest(tier: str) -> int:
             w = w * (1.0 + 1e-5 * math.sqrt(4 * math.pi) * ylm.ylm_xyz(22, p)[ylm.row(22, 0)])
         return p, w
     attempt("lebedev-23-weights-off-in-Y(22,0)-by-1e-5", lambda: set_load(load7), lambda: set_load(orig_load))
+
+
+    # ---- mutants for the clauses added by the audit (call forms, cache histories, integrate, size table) -------
+    FOURPI = 4 * np.pi
+
+    # 8. the size route forgets the 4 pi normalisation of the two scaled families
+    def init8(self, degree=50, *, size=None, cache=True, method="lebedev"):
+        orig_init(self, degree, size=size, cache=cache, method=method)
+        if size is not None and method.lower() in ("lebedev", "spherical"):
+            self._weights = self._weights / FOURPI
+    attempt("size-route-without-4pi", lambda: setattr(ga.AngularGrid, "__init__", init8),
+            lambda: setattr(ga.AngularGrid, "__init__", orig_init))
+
+    # 9. cache=False hands out the raw file content (no 4 pi) for one family
+    def init9(self, degree=50, *, size=None, cache=True, method="lebedev"):
+        orig_init(self, degree, size=size, cache=cache, method=method)
+        if not cache and method.lower() == "spherical":
+            self._weights = self._weights / FOURPI
+    attempt("spherical-cache-false-without-4pi", lambda: setattr(ga.AngularGrid, "__init__", init9),
+            lambda: setattr(ga.AngularGrid, "__init__", orig_init))
+
+    # 10. the first instance built on a cold cache shares its points with the cache entry (seeded change 2B)
+    def init10(self, degree=50, *, size=None, cache=True, method="lebedev"):
+        m = method.lower()
+        cd = {"lebedev": ga.LEBEDEV_CACHE, "spherical": ga.SPHERICAL_CACHE, "maxdet": ga.MAX_DET_CACHE,
+              "ahrens_beylkin": ga.AHRENS_BEYLKIN_CACHE}.get(m)
+        before = set(cd) if cd is not None else set()
+        orig_init(self, degree, size=size, cache=cache, method=method)
+        if cd is not None and self._degree in cd and self._degree not in before:
+            cd[self._degree] = (self._points, cd[self._degree][1])
+    attempt("first-instance-points-alias-the-cache", lambda: setattr(ga.AngularGrid, "__init__", init10),
+            lambda: setattr(ga.AngularGrid, "__init__", orig_init))
+
+    # 11. the instance advertises the REQUESTED degree, not the degree of the grid that was loaded
+    def init11(self, degree=50, *, size=None, cache=True, method="lebedev"):
+        orig_init(self, degree, size=size, cache=cache, method=method)
+        if size is None and degree is not None:
+            self._degree = degree
+    attempt("advertises-requested-degree", lambda: setattr(ga.AngularGrid, "__init__", init11),
+            lambda: setattr(ga.AngularGrid, "__init__", orig_init))
+
+    # 12. AngularGrid gets its own integrate that "normalises" by the sphere area
+    def integrate12(self, *value_arrays):
+        return ga.Grid.integrate(self, *value_arrays) / FOURPI
+
+    def undo12():
+        del ga.AngularGrid.integrate
+    attempt("integrate-normalised-by-4pi", lambda: setattr(ga.AngularGrid, "integrate", integrate12), undo12)
+
+    # 13. the size table names another degree for one size (the degree table, hence the catalogue, is intact)
+    def apply13():
+        ga.LEBEDEV_NPOINTS[26] = 9
+
+    def undo13():
+        ga.LEBEDEV_NPOINTS[26] = 7
+    assert ga.LEBEDEV_NPOINTS[26] == 7
+    attempt("lebedev-size-table-26-names-degree-9", apply13, undo13)
+
+    # 14. the file name is built with repr(): numpy integers (numpy >= 2: 'np.uint8(5)') name no file
+    def load14(degree, size, method):
+        if repr(degree) != str(int(degree)) or repr(size) != str(int(size)):
+            raise FileNotFoundError(f"{method}_{degree!r}_{size!r}.npz")
+        return orig_load(degree, size, method)
+    attempt("file-name-from-repr-of-numpy-integer", lambda: set_load(load14), lambda: set_load(orig_load))
+
+    # 15. a cache hit keyed by the raw request: an in-between request served after the exact one gets the grid of
+    #     the NEXT lower entry's cache slot - here: warm requests d0+1 .. d-1 are looked up one entry too low
+    def init15(self, degree=50, *, size=None, cache=True, method="lebedev"):
+        m = method.lower()
+        if size is None and m == "maxdet" and isinstance(degree, (int, np.integer)) and 0 < int(degree) < 199 and ga.MAX_DET_CACHE.get(int(degree) + 1) is not None \
+                and int(degree) not in ga.MAX_DET_CACHE:
+            # stale slot: reuse the arrays cached for the next degree
+            orig_init(self, int(degree) + 1, size=None, cache=cache, method=method)
+            self._degree = int(degree)
+            return
+        orig_init(self, degree, size=size, cache=cache, method=method)
+    attempt("maxdet-warm-hit-takes-neighbouring-slot", lambda: setattr(ga.AngularGrid, "__init__", init15),
+            lambda: setattr(ga.AngularGrid, "__init__", orig_init))
 
     missed = [n for n, ok in results if not ok]
     print(f"selftest: {len(results) - len(missed)}/{len(results)} mutants killed; missed: {missed}")
